@@ -356,6 +356,16 @@ func (t *Transaction) With(name string, readOnly bool, createFn func() (Cachable
 		}
 		return nil
 	}
+	if readOnly && isWriterOfName {
+		/* We are writing to the index behind this name ourselves and the
+		 * cache we wrote to has left the manager meanwhile (size limit,
+		 * release). What we would build now shows our uncommitted changes:
+		 * if we published it, it would stay behind when we fail, and be
+		 * handed to the next transaction. */
+		t.manager.mu.Unlock()
+		log.Debug().Str("name", name).Msg("Reading an index we are writing to, using cold cache")
+		return t.withColdCache(createFn, f)
+	}
 	if readOnly && t.manager.generation.Load() != t.startGeneration {
 		// Same as above, but we are about to publish a cache built from our
 		// older snapshot. Writers bump the generation under the manager lock
